@@ -226,6 +226,7 @@ impl GraphEngine {
             pending_label_additions: Vec::new(),
             pending_label_removals: Vec::new(),
             created_external_ids: std::collections::HashSet::new(),
+            pending_vectors: Vec::new(),
             memtable: MemTable::default(),
         }
     }
@@ -699,6 +700,7 @@ pub struct WriteTxn<'a> {
     pending_label_additions: Vec<(InternalNodeId, LabelId)>,
     pending_label_removals: Vec<(InternalNodeId, LabelId)>,
     created_external_ids: std::collections::HashSet<ExternalId>,
+    pending_vectors: Vec<(InternalNodeId, Vec<f32>)>,
     memtable: MemTable,
 }
 
@@ -838,7 +840,10 @@ impl<'a> WriteTxn<'a> {
 
     // T203: HNSW Support
     pub fn set_vector(&mut self, id: InternalNodeId, vector: Vec<f32>) -> Result<()> {
-        self.engine.insert_vector(id, vector)
+        // Buffered like every other write: a transaction that never commits must not change
+        // what vector search returns.
+        self.pending_vectors.push((id, vector));
+        Ok(())
     }
 
     pub fn commit(self) -> Result<()> {
@@ -1124,6 +1129,10 @@ impl<'a> WriteTxn<'a> {
         }
         #[cfg(nervusdb_verif)]
         crate::verif::sched("commit.after_idmap");
+
+        for (id, vector) in self.pending_vectors {
+            self.engine.insert_vector(id, vector)?;
+        }
 
         let has_label_mutations = has_new_nodes || has_label_additions || has_label_removals;
         if has_label_mutations {
